@@ -792,9 +792,24 @@ class SpecClassMetadata:
     def _build_invalidation_map(self, owner):
         invalidation_map = defaultdict(set)
 
+        # Members that an undecorated subclass (which shares this metadata)
+        # defines under the name of a managed attribute declare the
+        # dependencies of that attribute themselves.
+        overridden = {}
+        for klass in owner.mro():
+            if klass is self.owner:
+                break
+            for name, member in tuple(klass.__dict__.items()):
+                if (
+                    name in self.attrs
+                    and name not in overridden
+                    and hasattr(member, "__spec_class_invalidated_by__")
+                ):
+                    overridden[name] = member.__spec_class_invalidated_by__
+
         # Add all attribute configurations
         for attr, attr_spec in self.attrs.items():
-            for invalidator in attr_spec.invalidated_by or ():
+            for invalidator in overridden.get(attr, attr_spec.invalidated_by) or ():
                 invalidation_map[invalidator].add(attr)
 
         # Add in any explicitly mapped invalidations from class attributes
